@@ -819,7 +819,7 @@ func c24AllSpecs() map[string][]c24Params {
 			{Name: "typha-b1-m1-graph-t", MaxBatch: 1, MaxMsg: 1, Depth: 8, Rejoins: 2},
 			{Name: "typha-b2-m1-graph-t", MaxBatch: 2, MaxMsg: 1, Depth: 7, Rejoins: 2},
 			{Name: "typha-b2-m2-graph-t", MaxBatch: 2, MaxMsg: 2, Depth: 7, Rejoins: 2},
-			{Name: "typha-b3-m2-graph-t", MaxBatch: 3, MaxMsg: 2, Depth: 7, Rejoins: 2},
+			{Name: "typha-b3-m2-graph-t", MaxBatch: 3, MaxMsg: 2, Depth: 6, Rejoins: 2},
 			{Name: "typha-b3-m1-rich-t", MaxBatch: 3, MaxMsg: 1, Depth: 5, Rejoins: 1, Rich: true},
 			{Name: "typha-b2-m2-rich-t", MaxBatch: 2, MaxMsg: 2, Depth: 5, Rejoins: 1, Rich: true},
 			{Name: "typha-b2-m1-tree-t", MaxBatch: 2, MaxMsg: 1, Depth: 5, Rejoins: 1, Tree: true},
